@@ -274,4 +274,146 @@ theorem traverse_eq_pruned (slabB : B → K → K → Bool) (slabE : E → K →
       simp [hb']
 end traverse
 
+section slabsound
+open Gen.geometry
+/-- one axis of the slab test does not reject, and keeps `t` strictly inside a non-empty range, when the ray
+    point at parameter `t` lies strictly inside the (widened) slab -/
+theorem slabComponent_sound (o d tmin tmax lo hi t : ℝ) (hd : d ≠ 0)
+    (h1 : lo < o + d * t) (h2 : o + d * t < hi) (ha : tmin ≤ t) (hb : t ≤ tmax) (hc : tmin < tmax) :
+    (slabComponent o d tmin tmax lo hi).1 = false ∧
+    (slabComponent o d tmin tmax lo hi).2.1 ≤ t ∧ t ≤ (slabComponent o d tmin tmax lo hi).2.2 ∧
+    (slabComponent o d tmin tmax lo hi).2.1 < (slabComponent o d tmin tmax lo hi).2.2 := by
+  rw [slabComponent_eq]
+  set k := 1 / d with hk
+  have hdk : d * k = 1 := by rw [hk]; field_simp
+  have ht : t = (d * t) * k := by
+    have : (d * t) * k = t * (d * k) := by ring
+    rw [this, hdk, mul_one]
+  have hL : min ((lo - o) * k) ((hi - o) * k) < t ∧ t < max ((lo - o) * k) ((hi - o) * k) := by
+    rcases lt_or_gt_of_ne hd with hneg | hpos
+    · have hkneg : k < 0 := by rw [hk]; exact one_div_neg.mpr hneg
+      constructor
+      · refine lt_of_le_of_lt (min_le_right _ _) ?_
+        rw [ht]; exact mul_lt_mul_of_neg_right (by linarith) hkneg
+      · refine lt_of_lt_of_le ?_ (le_max_left _ _)
+        rw [ht]; exact mul_lt_mul_of_neg_right (by linarith) hkneg
+    · have hkpos : 0 < k := by rw [hk]; exact one_div_pos.mpr hpos
+      constructor
+      · refine lt_of_le_of_lt (min_le_left _ _) ?_
+        rw [ht]; exact mul_lt_mul_of_pos_right (by linarith) hkpos
+      · refine lt_of_lt_of_le ?_ (le_max_right _ _)
+        rw [ht]; exact mul_lt_mul_of_pos_right (by linarith) hkpos
+  obtain ⟨hl, hh⟩ := hL
+  generalize min ((lo - o) * k) ((hi - o) * k) = L at hl ⊢
+  generalize max ((lo - o) * k) ((hi - o) * k) = Hh at hh ⊢
+  have e1 : max tmin L ≤ t := max_le ha (le_of_lt hl)
+  have e2 : t ≤ min tmax Hh := le_min hb (le_of_lt hh)
+  have e3 : max tmin L < min tmax Hh := by
+    rcases le_total tmin L with h | h
+    · rw [max_eq_right h]
+      exact lt_min (lt_of_lt_of_le hl hb) (lt_trans hl hh)
+    · rw [max_eq_left h]
+      exact lt_min hc (lt_of_le_of_lt ha hh)
+  refine ⟨?_, e1, e2, e3⟩
+  simp only [decide_eq_false_iff_not, not_le]
+  exact e3
+
+/-- `slab_sound`: if the ray `o + t·d` (no direction component zero) is inside box `a` for some parameter `t` of a
+    non-empty range `[mn, mx]`, the slab test accepts `a` for that range -/
+theorem slab_sound_aux (a : Box) (o d : P3) (mn mx t : ℝ)
+    (hd : d.x ≠ 0 ∧ d.y ≠ 0 ∧ d.z ≠ 0) (hr : mn < mx) (h1 : mn ≤ t) (h2 : t ≤ mx)
+    (hin : a.Contains (o.Add (d.Scale t)) = true) : intersectsRayInRange a o d mn mx = true := by
+  rw [aabb_contains_iff] at hin
+  simp only [V3.Add, V3.Scale] at hin
+  obtain ⟨a1, a2, a3, a4, a5, a6⟩ := hin
+  have keps : (0 : ℝ) < kEps := by simp [kEps]
+  obtain ⟨x0, x1, x2, x3⟩ := slabComponent_sound o.x d.x mn mx (a.Min.x - kEps) (a.Max.x + kEps) t hd.1
+    (by linarith) (by linarith) h1 h2 hr
+  obtain ⟨y0, y1, y2, y3⟩ := slabComponent_sound o.y d.y _ _ (a.Min.y - kEps) (a.Max.y + kEps) t hd.2.1
+    (by linarith) (by linarith) x1 x2 x3
+  obtain ⟨z0, _, _, _⟩ := slabComponent_sound o.z d.z _ _ (a.Min.z - kEps) (a.Max.z + kEps) t hd.2.2
+    (by linarith) (by linarith) y1 y2 y3
+  simp only [intersectsRayInRange, x0, y0, z0, Bool.false_eq_true, if_false]
+end slabsound
+
+section bvhbuild
+variable {B H : Type}
+/-- `NewBVHTree` builds a covering tree over exactly the given objects, whatever the axis choices / sort order -/
+theorem bvhBuild_spec (sub : B → B → Prop) (boxH : H → B) (union : B → B → B) (reorder : List H → List H)
+    (hre : ∀ l, (reorder l).Perm l)
+    (hun : ∀ a b, sub a (union a b) ∧ sub b (union a b))
+    (htrans : ∀ a b c, sub a b → sub b c → sub a c) :
+    ∀ (fuel : Nat) (hs : List H), hs ≠ [] → hs.length ≤ fuel → (∀ h ∈ hs, sub (boxH h) (boxH h)) →
+      ∃ t, bvhBuild reorder boxH union fuel hs = some t ∧ BInv sub boxH t ∧
+        (∀ h, h ∈ t.leaves ↔ h ∈ hs) ∧ (∀ h ∈ t.leaves, sub (boxH h) (t.boxOf boxH)) := by
+  intro fuel
+  induction fuel with
+  | zero =>
+    intro hs hne hlen
+    exact absurd (List.length_eq_zero_iff.mp (Nat.le_zero.mp hlen)) hne
+  | succ fuel ih =>
+    intro hs hne hlen hrefl
+    match hs, hne, hlen, hrefl with
+    | [a], _, _, _ =>
+      refine ⟨.node (union (boxH a) (boxH a)) (.leaf a) (.leaf a), by simp only [bvhBuild], ?_, ?_, ?_⟩
+      · refine BInv.node ?_ (BInv.leaf a) (BInv.leaf a)
+        intro h hh
+        simp only [Bvh.leaves, List.cons_append, List.nil_append, List.mem_cons, List.not_mem_nil, or_false, or_self] at hh
+        subst hh; exact (hun _ _).1
+      · intro h; simp [Bvh.leaves]
+      · intro h hh
+        simp only [Bvh.leaves, List.cons_append, List.nil_append, List.mem_cons, List.not_mem_nil, or_false, or_self] at hh
+        subst hh; exact (hun _ _).1
+    | [a, b], _, _, _ =>
+      have hp := hre [a, b]
+      obtain ⟨x, y, hxy⟩ := List.length_eq_two.mp (by rw [hp.length_eq]; rfl : (reorder [a, b]).length = 2)
+      have hmem : ∀ h, h ∈ [x, y] ↔ h ∈ [a, b] := fun h => by rw [← hxy]; exact hp.mem_iff
+      refine ⟨.node (union (boxH x) (boxH y)) (.leaf x) (.leaf y), by simp only [bvhBuild, hxy], ?_, ?_, ?_⟩
+      · refine BInv.node ?_ (BInv.leaf x) (BInv.leaf y)
+        intro h hh
+        simp only [Bvh.leaves, List.cons_append, List.nil_append, List.mem_cons, List.not_mem_nil, or_false] at hh
+        rcases hh with rfl | rfl
+        · exact (hun _ _).1
+        · exact (hun _ _).2
+      · intro h; simpa [Bvh.leaves] using hmem h
+      · intro h hh
+        simp only [Bvh.leaves, List.cons_append, List.nil_append, List.mem_cons, List.not_mem_nil, or_false] at hh
+        rcases hh with rfl | rfl
+        · exact (hun _ _).1
+        · exact (hun _ _).2
+    | a :: b :: c :: rest, _, hlen, hrefl =>
+      have hp := hre (a :: b :: c :: rest)
+      have hl : (reorder (a :: b :: c :: rest)).length = rest.length + 3 := by rw [hp.length_eq]; simp
+      generalize hs' : reorder (a :: b :: c :: rest) = s at hp hl
+      have hmid1 : 1 ≤ s.length / 2 := by omega
+      have hmid2 : s.length / 2 < s.length := by omega
+      have hreflS : ∀ h ∈ s, sub (boxH h) (boxH h) := fun h hh => hrefl h (hp.mem_iff.mp hh)
+      simp only [List.length_cons] at hlen
+      obtain ⟨tl, el, il, ml, bl⟩ := ih (s.take (s.length / 2))
+        (by intro h; have := congrArg List.length h; rw [List.length_take, List.length_nil] at this; omega)
+        (by rw [List.length_take]; omega)
+        (fun h hh => hreflS h (List.mem_of_mem_take hh))
+      obtain ⟨tr, er, ir, mr, br⟩ := ih (s.drop (s.length / 2))
+        (by intro h; have := congrArg List.length h; rw [List.length_drop, List.length_nil] at this; omega)
+        (by rw [List.length_drop]; omega)
+        (fun h hh => hreflS h (List.mem_of_mem_drop hh))
+      refine ⟨.node (union (tl.boxOf boxH) (tr.boxOf boxH)) tl tr, ?_, ?_, ?_, ?_⟩
+      · simp only [bvhBuild, hs', el, er]
+      · refine BInv.node ?_ il ir
+        intro h hh
+        simp only [Bvh.leaves, List.mem_append] at hh
+        rcases hh with hh | hh
+        · exact htrans _ _ _ (bl h hh) (hun _ _).1
+        · exact htrans _ _ _ (br h hh) (hun _ _).2
+      · intro h
+        simp only [Bvh.leaves, List.mem_append, ml, mr]
+        rw [← hp.mem_iff, ← List.mem_append, List.take_append_drop]
+      · intro h hh
+        simp only [Bvh.leaves, List.mem_append] at hh
+        simp only [Bvh.boxOf]
+        rcases hh with hh | hh
+        · exact htrans _ _ _ (bl h hh) (hun _ _).1
+        · exact htrans _ _ _ (br h hh) (hun _ _).2
+end bvhbuild
+
 end PolyVerif.Tree
